@@ -9,6 +9,7 @@ pub mod c06;
 pub mod c07;
 pub mod c08;
 pub mod c09;
+pub mod c10;
 pub mod c20;
 
 pub fn property(id: &str) -> Option<Property> {
@@ -22,6 +23,7 @@ pub fn property(id: &str) -> Option<Property> {
         "C07" => Some(c07::property()),
         "C08" => Some(c08::property()),
         "C09" => Some(c09::property()),
+        "C10" => Some(c10::property()),
         "C20" => Some(c20::property()),
         _ => None,
     }
